@@ -209,7 +209,13 @@ func (s *Sim) Do(o Op) (caseT []string, obsT []string) {
 	case "RD":
 		conn := s.conn()
 		buf := make([]byte, 70000)
-		_ = conn.SetReadDeadline(time.Now().Add(150 * time.Microsecond)) // never block for long: queued data or a timeout
+		// never block: with data queued the read returns it at once (a generous deadline, so that a loaded machine
+		// cannot turn it into a timeout); with nothing queued it times out immediately
+		if ice.VerifBufferedPackets(s.A) > 0 {
+			_ = conn.SetReadDeadline(time.Now().Add(5 * time.Second))
+		} else {
+			_ = conn.SetReadDeadline(time.Now().Add(150 * time.Microsecond))
+		}
 		n, err := conn.Read(buf)
 		_ = conn.SetReadDeadline(time.Time{})
 		switch {
